@@ -40,7 +40,8 @@ REQUIRED = ["probes", "graphs", "graphs_with_cycles", "graphs_with_oneway",
             "histories_with_dpids_equal_to_port_numbers",
             "histories_with_spanning_tree_options", "histories_with_a_flood_everything_flow",
             "withdrawals_checked_at_disconnect", "ports_deleted", "ports_readded",
-            "reconnects_before_the_old_connection_closed"]
+            "reconnects_before_the_old_connection_closed",
+            "ports_that_kept_announcing_changes"]
 TIMEOUT = {"quick": 1500, "thorough": 10800}
 
 _st = {}
@@ -435,8 +436,24 @@ def run_history (case, rep):
         if i_ in topo.sw and p_ not in topo.sw[i_].switch.ports:
           topo.sw[i_].switch.add_port(topo.sw[i_].switch.generate_port(p_)); w.run()
           rep.count("ports_readded")
-      elif k == "up":
-        if op[1] not in topo.sw: topo.connect(op[1])
+      elif k == "flap":
+        # one port keeps announcing changes of itself (it renegotiates its
+        # speed, say) several times a second, for longer than a link lives
+        # without probes: the links of that switch and of all the others are
+        # probed and kept all the same
+        i_, p_ = op[1], op[2]
+        if i_ in topo.sw and p_ in topo.sw[i_].switch.ports:
+          sws = topo.sw[i_].switch
+          port = sws.ports[p_]
+          t = 0.0
+          while t < SETTLE:
+            port.curr ^= 1
+            sws.send_port_status(port, 2)         # OFPPR_MODIFY
+            w.run()
+            w.advance(op[3]); topo.deliver()
+            t += op[3]
+            rep.count("port_status_modify_in_bursts")
+          rep.count("ports_that_kept_announcing_changes")
       elif k == "reboot":
         # the switch restarts and is back (new connection, ports with their
         # default configuration) before anybody noticed that its old
@@ -690,6 +707,8 @@ def gen_histories (rng, n, link_timeout=None, st_opts=None):
       elif r < 0.75 and cut:
         c = rng.choice(sorted(cut)); cut.discard(c)
         ops.append(["restore", c[0], c[1]])
+      elif r < 0.8:
+        ops.append(["flap", wi[0], rng.choice([wi[1], 3, 4]), rng.choice([0.1, 0.2, 0.45])])
       elif r < 0.85:
         ops.append(["down", rng.randrange(nsw)])
       elif r < 0.93:
